@@ -100,6 +100,24 @@ pub fn generate() -> i32 {
         recs.sort();
         index.insert(format!("v{version}-legacy"), json!({"format": version, "ttl": false, "blocks": total, "file_hash": format!("{:016x}", hash64(&[&img])), "contents": contents_json(&recs)}));
     }
+    // ---- a v3 file written by the independent encoder: boundary cases of the token rule
+    {
+        let total = 40u64;
+        let mut img = l::empty_device(3, total, T0 / SEC);
+        let mut recs: Vec<(Vec<u8>, Vec<u8>, u64, u64)> = Vec::new();
+        let mut at = 16u64;
+        for (key, target, len) in [(&b"fold-zero"[..], 0u16, 40usize), (b"fold-one", 1, 40), (b"fold-ffff", 0xffff, 40), (b"fold-zero-2blocks", 0, 5000)] {
+            let value = l::value_with_raw_fold(key, 700 + at, 0, at, len, target);
+            let r = Rec { key: key.to_vec(), value: value.clone(), timestamp: 700 + at, expiry: 0 };
+            let bytes = l::encode_record(3, at, &r);
+            l::put(&mut img, at, &bytes);
+            recs.push((key.to_vec(), value, r.timestamp, 0));
+            at += (bytes.len() / l::BLOCK) as u64;
+        }
+        std::fs::write(dir.join("v3-token-boundaries.feox"), &img).unwrap();
+        recs.sort();
+        index.insert("v3-token-boundaries".into(), json!({"format": 3, "ttl": false, "blocks": total, "file_hash": format!("{:016x}", hash64(&[&img])), "contents": contents_json(&recs)}));
+    }
     std::fs::write(dir.join("INDEX.json"), serde_json::to_string_pretty(&Value::Object(index)).unwrap()).unwrap();
     println!("golden corpus written to {}", dir.display());
     0
